@@ -201,7 +201,7 @@ def exec_pair(params):
         return out, w2
     for a, b, Fa, Fb, tag in ((w2, Tw, F2, FT, "transformed fit vs transform of fit"), (Tw, w2, FT, F2, "transform of fit vs transformed fit")):
         nu = RC.violation(prob2, a)[0]
-        bound = max(nu, 1e-10) * (10.0 if fista else 1.0) * float(np.sum(np.abs(np.asarray(a) - np.asarray(b)))) + 1e-9 * (1 + abs(Fb))
+        bound = max(nu, 1e-10) * float(np.sum(np.abs(np.asarray(a) - np.asarray(b)))) + 1e-9 * (1 + abs(Fb))
         if Fa - Fb > bound:
             out.append(("solution_does_not_transform", dict(direction=tag, gap=Fa - Fb, violation=nu), f"<= {bound}"))
     Xd = prob2["X"]
